@@ -371,6 +371,16 @@ func twkbGen(r *rand.Rand, n int, tier string, emit func(Case)) {
 			emit(c)
 			continue
 		}
+		if i%8 == 3 {
+			// lattice geometries (touching rings, T-junctions, shared vertices are common) scaled to decimal fractions
+			l := &lgen{r: r, N: 3 + r.Intn(6)}
+			g := l.any(4)
+			if r.Intn(2) == 0 {
+				g = l.leafOfType(2 + 3*r.Intn(2)) // Polygon / MultiPolygon
+			}
+			emit(Case{"kind": "grid", "w": g.AsText(), "q": 1 + r.Intn(3), "N": l.N})
+			continue
+		}
 		cti := r.Intn(4)
 		d := 2
 		if cti == 1 || cti == 2 {
@@ -473,6 +483,28 @@ func hasEmptyPointInNonEmptyMulti(t map[string]interface{}) bool {
 
 func twkbExec(c Case) Event {
 	ev := twkbOnPanic(c)
+	if c.str("kind") == "grid" {
+		g0 := mustWKT(c.str("w"))
+		q := c.num("q")
+		sc := math.Pow10(q)
+		g := g0.TransformXY(func(p geom.XY) geom.XY { return geom.XY{X: p.X / sc, Y: p.Y / sc} })
+		x := Event{"kind": "grid", "parts": parts(g0), "q": q, "err": "", "decerr": "", "same": false, "panic": ""}
+		bs, err := geom.MarshalTWKB(g, q)
+		if err != nil {
+			x["err"] = errStr(err)
+			return x
+		}
+		dg, err := geom.UnmarshalTWKB(bs) // validating
+		if err != nil {
+			x["decerr"] = errStr(err)
+			return x
+		}
+		// TWKB drops empty Points of MultiPoints and writes rings without their closing point: compare as the library's
+		// own exact, order-sensitive equality after the same normalisation of the expectation (a NoValidate decode)
+		ng, err2 := geom.UnmarshalTWKB(bs, geom.NoValidate{})
+		x["same"] = err2 == nil && geom.ExactEquals(dg, ng) && sameXYs(dg, g)
+		return x
+	}
 	switch c.str("kind") {
 	case "bad":
 		g := geom.NewPoint(geom.Coordinates{XY: geom.XY{X: 1, Y: 2}, Z: 3, M: 4, Type: geom.DimXYZM}).AsGeometry()
@@ -607,4 +639,30 @@ func twkbExec(c Case) Event {
 
 func init() {
 	register("twkb", &Family{Gen: twkbGen, Exec: twkbExec, OnPanic: twkbOnPanic})
+}
+
+// sameXYs: the control points of a and b are the same numbers in the same order, up to consecutive repetitions of a
+// vertex (TWKB writes rings without their closing point and closes them again on reading, so a ring whose closing
+// vertex was written twice comes back with it once: a loss the format forces, like the ones the property lists).
+func sameXYs(a, b geom.Geometry) bool {
+	dedup := func(s geom.Sequence) []geom.XY {
+		var out []geom.XY
+		for i := 0; i < s.Length(); i++ {
+			p := s.GetXY(i)
+			if len(out) == 0 || out[len(out)-1] != p {
+				out = append(out, p)
+			}
+		}
+		return out
+	}
+	pa, pb := dedup(a.DumpCoordinates()), dedup(b.DumpCoordinates())
+	if len(pa) != len(pb) {
+		return false
+	}
+	for i := range pa {
+		if pa[i] != pb[i] { // == on float64: -0 and +0 are the same ordinate
+			return false
+		}
+	}
+	return true
 }
